@@ -163,7 +163,13 @@ func (p *jsonPathParser) setNodeChain() {
 
 			nextNode := next.(syntaxNode)
 
-			if multiIdentifier, ok := last.(*syntaxChildMultiIdentifier); ok {
+			// The multiple-identifier may also be the selector of a recursive descent.
+			multiCandidate := last
+			if recursiveIdentifier, ok := last.(*syntaxRecursiveChildIdentifier); ok {
+				multiCandidate = recursiveIdentifier.getNext()
+			}
+
+			if multiIdentifier, ok := multiCandidate.(*syntaxChildMultiIdentifier); ok {
 				for _, singleIdentifier := range multiIdentifier.identifiers {
 					singleIdentifier.setNext(nextNode)
 				}
